@@ -13,7 +13,6 @@ import (
 
 	"verif/harness/lib/prng"
 	"verif/harness/lib/refresp"
-	"verif/harness/lib/res"
 	"verif/harness/lib/wk"
 )
 
@@ -418,7 +417,7 @@ func init() { wk.RegisterChild("c10stream", c10stream) }
 
 func c10stream(raw json.RawMessage, scratch string) {
 	a := wk.ParseBatchArg(raw, nil)
-	r := res.New("C10")
+	r := wk.ChildRes("C10")
 	base := prng.New(a.Seed).Split(0xC10)
 	for i := a.Start; i < a.End; i++ {
 		rng := base.Split(uint64(i))
